@@ -12,7 +12,7 @@ from vlib.runner import Hyp, Violation
 ID = "C03"
 LEVEL = "exploration"
 RULE = (
-    "Hypothesis pairs constructed 0-25% below the ACTIVE minimum (both polarities, dark/mid/light backgrounds) x large x "
+    "Hypothesis pairs constructed 0-25% below the ACTIVE minimum (both polarities, dark/mid/light backgrounds; one in four with the text on the sRGB gamut surface, moving outwards) x large x "
     "very_readable, hex/rgb()/hsl()/tuple spellings. For each pair the harness scans the text's own OKLCH lightness line "
     "(own chroma and hue, per-channel clipping to sRGB) outward from the text on a 0.0001 grid (0.00002 in the thorough tier) until 40 consecutive distinct "
     "candidates are further than dE00 1.5, with its own OKLab/CIEDE2000/WCAG code; a pair is WITNESSED if a candidate within "
@@ -91,7 +91,7 @@ def judge(case):
         if far > 2.0 + 0.01:
             raise Violation("fix-too-far", f"mode {mode} returned {result!r} at CIEDE2000 {far:.4f} from {text} although a witness exists at dE {wd:.3f} ({wrgb}); {optim.describe(c)}")
     thr = minimum
-    return {"nt": (text, bg, large, very), "cls": [f"witnessed:{polarity}:{gc.band(bg)}:min{thr}", f"witness-direction:{wdir}"],
+    return {"nt": (text, bg, large, very), "cls": [f"witnessed:{polarity}:{gc.band(bg)}:min{thr}", f"witness-direction:{wdir}"] + (["gamut-surface-text"] if (255 in text or 0 in text) else []),
             "sample": {"text": case["text"], "bg": case["bg"], "large": large, "very": very, "witness": list(wrgb), "witness_dE": round(wd, 3), "witness_ratio": round(wr, 3)}}
 
 
@@ -99,7 +99,30 @@ def judge(case):
 def strategy(draw):
     large, very, _ = draw(gc.settings3())
     minimum = ow.minimum(large, very)
-    text, bg, meta = draw(gc.pair_near(thresholds=(minimum,), delta_lo=-0.25, delta_hi=0.0, tight=0.06))
+    if draw(st.integers(0, 3)) == 0:
+        # text ON THE sRGB GAMUT SURFACE (one or two channels at 255, or at 0) that has to move further out along its own
+        # lightness line: every candidate on that line is a CLIPPED colour, which is what the property's witness is made of
+        c = list(draw(gc.rgb()))
+        up = draw(st.booleans())
+        ks = draw(st.lists(st.integers(0, 2), min_size=1, max_size=2, unique=True))
+        c[ks[0]] = 255 if up else 0
+        if len(ks) == 2:
+            near = draw(st.integers(0, 20))  # the second channel at the extreme too, or within 20 of it (bright yellows, cyans, deep blues ...)
+            c[ks[1]] = 255 - near if up else near
+        if draw(st.booleans()):
+            j = draw(st.integers(0, 2))
+            if c[j] not in (0, 255):
+                c[j] = draw(st.integers(0, 60)) if up else draw(st.integers(195, 255))  # strongly saturated
+        text = tuple(c)
+        delta = draw(st.floats(-0.06, 0.0)) if draw(st.integers(0, 9)) < 7 else draw(st.floats(-0.25, 0.0))
+        e = (0, 0, 0) if up else (255, 255, 255)
+        if draw(st.booleans()):
+            o = draw(gc.rgb())
+            e = tuple(min(o[k], text[k]) for k in range(3)) if up else tuple(max(o[k], text[k]) for k in range(3))
+        bg = gc._closest_on_segment(text, e, minimum * (1.0 + delta))
+        meta = {"thr": minimum, "delta": round(delta, 4), "lighter": up, "band": gc.band(bg), "surface": True}
+    else:
+        text, bg, meta = draw(gc.pair_near(thresholds=(minimum,), delta_lo=-0.25, delta_hi=0.0, tight=0.06))
     targ, tkind, _ = draw(gc.spell(text, kinds=["hex6", "rgb", "hsl", "tuple", "nohash", "named"], allow_translucent=False))
     barg, bkind, _ = draw(gc.spell(bg, kinds=["hex6", "rgb", "tuple"], allow_translucent=False))
     case = {"text": targ, "bg": barg, "large": large, "very": very, "tkind": tkind}
@@ -113,4 +136,4 @@ def subchecks(tier):
     global GRID
     q = tier == "quick"
     GRID = 0.0001 if q else 0.00002  # shards are forked after this call
-    return [Hyp("witnessed-lightness-fix", strategy, judge, examples=16000 if q else 300000)]
+    return [Hyp("witnessed-lightness-fix", strategy, judge, examples=32000 if q else 300000)]
